@@ -26,7 +26,16 @@ _PRIMES = [2, 3, 5, 7, 11, 13, 17, 19, 23]
 def distinct(rng: random.Random, n: int, pool: Optional[List[int]] = None) -> List[int]:
     """n pairwise-distinct sizes, so that a wrong-axis mistake cannot coincide."""
     pool = pool or [2, 3, 4, 5, 6, 7, 9, 11, 13]
-    return rng.sample(pool, n)
+    s = rng.sample(pool, n)
+    # ... but coincidences are a boundary of their own (square weights, seq_len == d_head, batch == width): a shortcut such as
+    # `if fan_in == fan_out` only shows there. One case in six gets two equal sizes, one in twelve a size of 1.
+    r = rng.random()
+    if n >= 2 and r < 1 / 6:
+        i, j = rng.sample(range(n), 2)
+        s[j] = s[i]
+    elif n >= 2 and r < 1 / 6 + 1 / 12:
+        s[rng.randrange(n)] = 1
+    return s
 
 
 def pick_mult(rng: random.Random) -> float:
